@@ -120,26 +120,32 @@ def summarise_tl_operator(prog: Program, name: str, cls: str = "TermList") -> st
 
 
 def le_forwards_to(prog: Program, cls: str = "TermList") -> str:
-    """`TermList.__le__(self, other)` must be `return self.refines(other)`; returns the forwarded method name.
+    """`TermList.__le__(self, other)` must answer `self.refines(other)` on every path; returns the forwarded method
+    name.  If the operands are swapped (`other.refines(self)`) the returned name is 'refines_swapped'.  A path that
+    answers on some other ground (a syntactic fast path) gives a name starting with '!' that says so."""
+    from .pathsim import Sim, show
 
-    If the operands are swapped (`other.refines(self)`) the returned name is 'refines_swapped'.
-    """
     fi = prog.resolve_method(cls, "__le__")
     if fi is None:
         raise AnalysisError("anchor vanished: %s.__le__" % cls)
-    rets = [n for n in ast.walk(fi.node) if isinstance(n, ast.Return)]
-    if len(rets) != 1 or not isinstance(rets[0].value, ast.Call):
-        raise AnalysisError("%s.__le__ is not a single forwarding return" % cls)
-    c = rets[0].value
     p = fi.params
-    if (
-        isinstance(c.func, ast.Attribute)
-        and isinstance(c.func.value, ast.Name)
-        and len(c.args) == 1
-        and isinstance(c.args[0], ast.Name)
-    ):
-        if c.func.value.id == p[0] and c.args[0].id == p[1]:
-            return c.func.attr
-        if c.func.value.id == p[1] and c.args[0].id == p[0]:
-            return c.func.attr + "_swapped"
-    raise AnalysisError("%s.__le__ has an unrecognised shape: %s" % (cls, norm(c)))
+    names = set()
+    for path in Sim(prog, fi).paths():
+        if path.terminal != "return":
+            continue
+        v = path.value
+        if isinstance(v, tuple) and v and v[0] == "mcall" and len(v[3]) + len(v[4]) == 1:
+            arg = (list(v[3]) + [x for _k, x in v[4]])[0]
+            if v[2] == ("param", p[0]) and arg == ("param", p[1]):
+                names.add(v[1])
+                continue
+            if v[2] == ("param", p[1]) and arg == ("param", p[0]):
+                names.add(v[1] + "_swapped")
+                continue
+        names.add("!a path answers %s without asking the refinement test (path %s)" % (show(v, 3), path.label()[:80] or "straight line"))
+    bad = sorted(n for n in names if n.startswith("!"))
+    if bad:
+        return bad[0]
+    if len(names) != 1:
+        raise AnalysisError("%s.__le__ forwards to %s" % (cls, sorted(names)))
+    return names.pop()
